@@ -3,7 +3,7 @@
 (* Workload families for paths, derivation, keys and signatures (Gen_C03,  *)
 (* Gen_C04, Gen_C05, Gen_C14, Gen_C15).                                     *)
 (***************************************************************************)
-EXTENDS DocAst, HdPath, Ecdsa, SigText, IOUtils, TLC
+EXTENDS DocAst, HdPath, Ecdsa, SigText, Bip32, IOUtils, TLC
 
 Seed     == IF "VERIF_SEED" \in DOMAIN IOEnv THEN IOEnv.VERIF_SEED ELSE "0"
 Thorough == "VERIF_TIER" \in DOMAIN IOEnv /\ IOEnv.VERIF_TIER = "thorough"
@@ -77,6 +77,18 @@ WalkAt(j) ==
                       IN  DecCodes(BnToDec(w)) \o (IF r = 1 THEN <<39>> ELSE <<>>)
   IN  KItem("hdk.derive", "walk",
             [seed |-> SeedHex(j, <<3, j>>), path |-> Str(<<109>> \o Concat([i \in 1..depth |-> <<47>> \o comp(i)]))])
+
+\* spec-directed search for derivation steps whose CHILD KEY has a rare shape: three leading zero bytes (one
+\* hardened index in 2^24).  Each item searches its own window of 2^20 hardened indices below the master key of a
+\* fixed seed (natively, Bip32!RareHardenedChild) and derives m/i' and a descendant of it when the window has a hit.
+RareSeed == [i \in 1..64 |-> (i * 5 + 1) % 256]
+NRare == IF Thorough THEN 256 ELSE 48
+RareAt(j) ==
+  LET m   == Master(RareSeed)
+      lo  == (j - 1) * 1048576
+      i   == RareHardenedChild(m.k, m.c, 3, lo, lo + 1048575)
+      txt == IF i >= 0 THEN "m/" \o ToString(i) \o "'" \o (IF j % 2 = 0 THEN "/0" ELSE "") ELSE "m/" \o ToString(lo) \o "'"
+  IN  KItem("hdk.derive", IF i >= 0 THEN "rare_child" ELSE "rare_child_none", [seed |-> BytesToHex(RareSeed), path |-> txt])
 
 \* ---- keys ------------------------------------------------------------------------
 Scalars == <<PadLeft(<<1>>, 32), PadLeft(<<2>>, 32), PadLeft(<<3>>, 32), NMinus(2), NMinus(1), <<128>> \o Zeros(31),
